@@ -96,7 +96,7 @@ Definition printable (b : Z) : bool :=
   || ((39 <=? b) && (b <=? 41)) || ((43 <=? b) && (b <=? 47))
   || (b =? 32) || (b =? 58) || (b =? 61) || (b =? 63) || (b =? 42).
 
-Definition cont (x : Z) : bool := (128 <=? x) && (x <? 192).
+Definition utf8_cont (x : Z) : bool := (128 <=? x) && (x <? 192).
 
 (* unicode/utf8.Valid *)
 Fixpoint utf8_valid (fuel : nat) (b : bytes) : bool :=
@@ -108,19 +108,19 @@ Fixpoint utf8_valid (fuel : nat) (b : bytes) : bool :=
     | S f =>
       if x <? 128 then utf8_valid f r
       else if (194 <=? x) && (x <=? 223) then
-        match r with c1 :: r' => cont c1 && utf8_valid f r' | _ => false end
+        match r with c1 :: r' => utf8_cont c1 && utf8_valid f r' | _ => false end
       else if x =? 224 then
-        match r with c1 :: c2 :: r' => (160 <=? c1) && (c1 <? 192) && cont c2 && utf8_valid f r' | _ => false end
+        match r with c1 :: c2 :: r' => (160 <=? c1) && (c1 <? 192) && utf8_cont c2 && utf8_valid f r' | _ => false end
       else if ((225 <=? x) && (x <=? 236)) || (x =? 238) || (x =? 239) then
-        match r with c1 :: c2 :: r' => cont c1 && cont c2 && utf8_valid f r' | _ => false end
+        match r with c1 :: c2 :: r' => utf8_cont c1 && utf8_cont c2 && utf8_valid f r' | _ => false end
       else if x =? 237 then
-        match r with c1 :: c2 :: r' => (128 <=? c1) && (c1 <? 160) && cont c2 && utf8_valid f r' | _ => false end
+        match r with c1 :: c2 :: r' => (128 <=? c1) && (c1 <? 160) && utf8_cont c2 && utf8_valid f r' | _ => false end
       else if x =? 240 then
-        match r with c1 :: c2 :: c3 :: r' => (144 <=? c1) && (c1 <? 192) && cont c2 && cont c3 && utf8_valid f r' | _ => false end
+        match r with c1 :: c2 :: c3 :: r' => (144 <=? c1) && (c1 <? 192) && utf8_cont c2 && utf8_cont c3 && utf8_valid f r' | _ => false end
       else if (241 <=? x) && (x <=? 243) then
-        match r with c1 :: c2 :: c3 :: r' => cont c1 && cont c2 && cont c3 && utf8_valid f r' | _ => false end
+        match r with c1 :: c2 :: c3 :: r' => utf8_cont c1 && utf8_cont c2 && utf8_cont c3 && utf8_valid f r' | _ => false end
       else if x =? 244 then
-        match r with c1 :: c2 :: c3 :: r' => (128 <=? c1) && (c1 <? 144) && cont c2 && cont c3 && utf8_valid f r' | _ => false end
+        match r with c1 :: c2 :: c3 :: r' => (128 <=? c1) && (c1 <? 144) && utf8_cont c2 && utf8_cont c3 && utf8_valid f r' | _ => false end
       else false
     end
   end.
@@ -379,12 +379,13 @@ Definition gfields_ok (ok : gty -> bool) : list gfield -> bool :=
   match fs with
   | [] => true
   | (Some n, opt, g) :: fs' =>
-    gtag_ok n && ok g && (if opt then forallb (gids_distinct n) (gfirst fs') else true) && go fs'
+    gtag_ok n && ok g && (match g with GRaw => negb opt | _ => true end)
+    && (if opt then forallb (gids_distinct n) (gfirst fs') else true) && go fs'
   | (None, _, _) :: _ => false
   end.
 
 (* every struct field carries an explicit context tag below 31, an OPTIONAL field's tag differs from the tags of
-   the fields after it up to the next mandatory one, RawValue occurs only as a struct field *)
+   the fields after it up to the next mandatory one, RawValue occurs only as a mandatory struct field *)
 Fixpoint gok (g : gty) : bool :=
   match g with
   | GStruct fs => gfields_ok gok fs
